@@ -336,7 +336,7 @@ def check(pid, P, tier, seed, work, replay, t0):
     with Lock(os.path.join(LEAN, ".lock")):
         facts = regenerate(work)
         for g in P.get("gen", []):
-            if g in facts.get("unrecognised", []):
+            if g in (facts.get("unrecognised") or []):
                 broken.append(("Gen." + g, "extractor no longer recognises the code shape: " + facts.get("why", {}).get(g, "")))
         ok, out, secs = lake_build(imports + ["mdsdrv"])
         build_log = out
